@@ -92,6 +92,26 @@ CONTRACT(PRE_dt_dadd_dw(d, dur), POST_dt_dadd_dw(RV, d, dur));
 
 
 /* date difference; DT_DURD: plain difference of day numbers (other duration types: see C05 groups) */
+/* extern leaves used by other translation units */
+#define PRE___get_mdays(y, m) (1)
+#define POST___get_mdays(ret, y, m) \
+	(((m) >= 1 && (m) <= 12) ? (ret) == (unsigned)S_MDAYS(y, m) : (ret) == 0)
+unsigned int __get_mdays(unsigned int y, unsigned int m)
+CONTRACT(PRE___get_mdays(y, m), POST___get_mdays(RV, y, m));
+
+#define PRE___get_isowk(y) ((y) >= 1601 && (y) <= 4096)
+#define POST___get_isowk(ret, y) ((int)(ret) == S_ISOWEEKS((int)(y)))
+unsigned int __get_isowk(unsigned int y)
+CONTRACT(PRE___get_isowk(y), POST___get_isowk(RV, y));
+
+
+/* sign of a date duration: value+unit durations by their value, compound ones by the neg bit */
+#define VAL_DUR(t) ((t) == DT_DURD || (t) == DT_DURBD || (t) == DT_DURWK || (t) == DT_DURMO || (t) == DT_DURQU || (t) == DT_DURYR)
+#define PRE_dt_dur_neg_p(dur) (1)
+#define POST_dt_dur_neg_p(ret, dur) ((ret) == (VAL_DUR((dur).durtyp) ? ((dur).dv < 0) : (int)(dur).neg))
+int dt_dur_neg_p(struct dt_ddur_s dur)
+CONTRACT(PRE_dt_dur_neg_p(dur), POST_dt_dur_neg_p(RV, dur));
+
 #define DIFF_T(t) ((t) == DT_YMD || (t) == DT_YD || (t) == DT_DAISY || (t) == DT_LDN || (t) == DT_MDN)
 #define PRE_dt_ddiff(tgt, d1, d2, carry) ((tgt) == DT_DURD && V_d(d1) && V_d(d2) && DIFF_T((d1).typ) && DIFF_T((d2).typ))
 #define POST_dt_ddiff(ret, tgt, d1, d2, carry) ((ret).durtyp == DT_DURD && (ret).dv == AN_d(d2) - AN_d(d1) && (ret).neg == 0 && (ret).fix == 0)
